@@ -383,6 +383,180 @@ static void chain_wrapper(vf::Rng& r) {
 template <typename... Ws>
 static void chain_all(WList<Ws...>, vf::Rng& r) { (chain_wrapper<Ws>(r), ...); }
 
+// -------------------------------------------------------------------------------------------------------------
+// Round 5: operand-TYPE matrix.  Every compound operator with right operands of type int, unsigned, long, unsigned long
+// (= size_t / uint64_t here), long long, unsigned long long, uint8_t, int8_t, float, double and three wrapper types, where the
+// native expression `T x; x op= (R)b` is well-formed and defined; shift counts 0..width(promoted T)-1 in every count type.
+// Reference: the native expression with the SAME operand types (a wrapper operand stands for its exposed type).
+template <typename R, typename = void>
+struct ExpOf {
+  using type = R;
+};
+template <typename R>
+struct ExpOf<R, void_t<decltype(declval<const R&>().load())>> {
+  using type = decay_t<decltype(declval<const R&>().load())>;
+};
+
+template <typename RE>
+static string opnd_str(RE b) {
+  if constexpr (is_floating_point_v<RE>) return fmt("%.17Lg", (long double)b);
+  else if constexpr (is_signed_v<RE>) return fmt("%lld", (long long)b);
+  else return fmt("%llu", (unsigned long long)b);
+}
+
+// integer T, floating operand: the native result is converted float -> T, undefined outside T's range (conservative filter)
+template <typename T, typename RE>
+static inline bool float_result_fits(int op, T v, RE b) {
+  long double a = (long double)v, c = (long double)b, res;
+  switch (op) {
+    case 0: res = a + c; break;
+    case 1: res = a - c; break;
+    case 2: res = a * c; break;
+    default: res = a / c; break;
+  }
+  if (!(res == res) || isinf(res)) return false;
+  return res > (long double)numeric_limits<T>::min() / 2 && res < (long double)numeric_limits<T>::max() / 2;
+}
+
+static __attribute__((noinline, cold)) void report_mix(const WD& wd, const char* op, const char* aspect, const char* rname, const string& bstr, uint64_t v, const Wide& nat, const Wide& got,
+    uint64_t gotbits, uint64_t wantbits) {
+  C->violation(fmt("wrapper:%s:operand-type:%s:%s", op, aspect, wd.kind), "compound operator with a right operand of another type differs from the native expression with the same operand types",
+      fmt("%s w=%s; w %s (%s)%s: returns %s, stores %s; native returns %s, stores %s", wd.nm, vstr(*wd.t, v).c_str(), op, rname, bstr.c_str(), wide_str(got).c_str(),
+          vstr(*wd.t, gotbits).c_str(), wide_str(nat).c_str(), vstr(*wd.t, wantbits).c_str()));
+}
+
+template <typename W, typename R>
+static __attribute__((noinline)) void mix_ops(const char* rname, vf::Rng& r, uint64_t n) {
+  using T = typename WT<W>::T;
+  using RE = typename ExpOf<R>::type;
+  constexpr bool fl = is_floating_point_v<T> || is_floating_point_v<RE>;
+  constexpr int nops = fl ? 4 : 10;
+  constexpr int pbits = is_integral_v<T> ? (int)sizeof(decltype(+T())) * 8 : 1;
+  const WD& wd = WT<W>::wd();
+  const vector<T> bt = boundary_values<T>();
+  const vector<RE> br = boundary_values<RE>();
+  uint64_t tested = 0, filtered = 0, shifts = 0;
+  for (uint64_t i = 0; i < n; i++) {
+    int op = (int)r.below(nops);
+    if (!fl && r.chance(1, 3)) op = 8 + (int)r.below(2);  // the shift-count type matrix gets a third of the cases
+    T v;
+    switch (r.below(4)) {
+      case 0: v = bt[r.below(bt.size())]; break;
+      case 1: v = (T)r.range(-300, 300); break;
+      default: v = gen<T>(r); break;
+    }
+    RE b;
+    if (op >= 8) b = (RE)r.below(pbits);
+    else if (r.chance(1, 2)) b = (RE)r.range(-12, 12);
+    else if (r.chance(1, 2)) b = br[r.below(br.size())];
+    else b = gen<RE>(r);
+    bool ok;
+    switch (op) {
+      case 0: ok = OpAdd::defined<T, RE>(v, b); break;
+      case 1: ok = OpSub::defined<T, RE>(v, b); break;
+      case 2: ok = OpMul::defined<T, RE>(v, b); break;
+      case 3: ok = OpDiv::defined<T, RE>(v, b); break;
+      default: ok = true; break;
+    }
+    if constexpr (!fl) {
+      if (op == 4) ok = OpMod::defined<T, RE>(v, b);
+      if (op == 8) ok = OpShl::defined<T, RE>(v, b);
+      if (op == 9) ok = OpShr::defined<T, RE>(v, b);
+    }
+    if constexpr (is_integral_v<T> && is_floating_point_v<RE>) ok = ok && float_result_fits<T, RE>(op, v, b);
+    if (!ok) { filtered++; continue; }
+    C->crumb_n(rname, bits_of(v), bits_of(b), op);
+    T x = v;
+    Slot<W> s;
+    W* w = new (s.at()) W(v);
+    R bw = R(b);  // the operand as the caller passes it (a wrapper object, or the value itself)
+    Wide nat{}, got{};
+#define C03_MIX(K, OP)            \
+  case K:                         \
+    nat = wide_probe(x OP b);     \
+    got = wide_probe(*w OP bw);   \
+    break;
+    switch (op) {
+      C03_MIX(0, +=) C03_MIX(1, -=) C03_MIX(2, *=) C03_MIX(3, /=)
+      default: break;
+    }
+    if constexpr (!fl) {
+      switch (op) {
+        C03_MIX(4, %=) C03_MIX(5, &=) C03_MIX(6, |=) C03_MIX(7, ^=) C03_MIX(8, <<=) C03_MIX(9, >>=)
+        default: break;
+      }
+    }
+#undef C03_MIX
+    EV++;
+    tested++;
+    if (op >= 8) shifts++;
+    uint64_t gb = 0;
+    bool wide_ok = wide_same(nat, got, true), st_ok = stored_matches<W>(*w, x, &gb);
+    if (__builtin_expect(!wide_ok, 0)) report_mix(wd, OP2_NAME[op], "returned-wide", rname, opnd_str<RE>(b), bits_of(v), nat, got, gb, bits_of(x));
+    if (__builtin_expect(!st_ok, 0)) report_mix(wd, OP2_NAME[op], "stored", rname, opnd_str<RE>(b), bits_of(v), nat, got, gb, bits_of(x));
+    if (__builtin_expect(!s.canary_ok(), 0)) C->violation(fmt("wrapper:%s:canary:%s", OP2_NAME[op], wd.kind), "bytes outside the object changed", wd.nm);
+  }
+  // classes per exposed type (the three byte orders run identical loops), not per wrapper: keeps the class table readable
+  C->cls(fmt("%s:operand:%s", wd.t->name, rname), tested);
+  if (shifts) C->cls(fmt("%s:shift-count:%s", wd.t->name, rname), shifts);
+  if (filtered) C->cls(fmt("%s:operand:filtered-undefined", wd.kind), filtered);
+}
+
+// every count value x every count type x sign of the left operand, deterministically (small: <= 64 counts)
+template <typename W, typename R>
+static void shift_matrix(const char* rname) {
+  using T = typename WT<W>::T;
+  using RE = typename ExpOf<R>::type;
+  if constexpr (is_integral_v<T> && is_integral_v<RE>) {
+    constexpr int pbits = (int)sizeof(decltype(+T())) * 8;
+    const WD& wd = WT<W>::wd();
+    static const int64_t lefts[] = {-256, -1, -2, 1, 255, 0x40, -0x7F00, 0x7FFF, -0x8000, 0x12345678, -0x12345678, (int64_t)0x8000000000000000ULL, 0x7FFFFFFFFFFFFFFFLL, -0x0123456789ABCDEFLL};
+    uint64_t nn = 0;
+    for (int64_t lv : lefts)
+      for (int cnt = 0; cnt < pbits; cnt++)
+        for (int dir = 0; dir < 2; dir++) {
+          T v = (T)lv;
+          RE b = (RE)cnt;
+          T x = v;
+          W w(v);
+          R bw = R(b);
+          Wide nat, got;
+          vf::poison_errno();
+          if (dir == 0) { nat = wide_probe(x <<= b); got = wide_probe(w <<= bw); }
+          else { nat = wide_probe(x >>= b); got = wide_probe(w >>= bw); }
+          EV++;
+          nn++;
+          uint64_t gb = 0;
+          bool wide_ok = wide_same(nat, got, true), st_ok = stored_matches<W>(w, x, &gb);
+          if (!wide_ok) report_mix(wd, dir ? ">>=" : "<<=", "returned-wide", rname, opnd_str<RE>(b), bits_of(v), nat, got, gb, bits_of(x));
+          if (!st_ok) report_mix(wd, dir ? ">>=" : "<<=", "stored", rname, opnd_str<RE>(b), bits_of(v), nat, got, gb, bits_of(x));
+        }
+    C->cls(fmt("%s:shift-matrix:%s", wd.t->name, rname), nn);
+  }
+}
+
+template <typename W>
+static void mix_wrapper(vf::Rng& r) {
+  uint64_t n = C->qt<uint64_t>(48000, 960000) / C->nshards + 1;
+  C->crumb("operand types %s", WT<W>::nm);
+#define C03_R(R_)               \
+  mix_ops<W, R_>(#R_, r, n);    \
+  shift_matrix<W, R_>(#R_);
+  C03_R(int) C03_R(unsigned) C03_R(long) C03_R(unsigned long) C03_R(long long) C03_R(unsigned long long) C03_R(uint8_t) C03_R(int8_t)
+  C03_R(uint16_t) C03_R(float) C03_R(double) C03_R(be_uint16_t) C03_R(le_int64_t) C03_R(re_uint32_t) C03_R(le_double)
+#undef C03_R
+}
+template <typename... Ws>
+static void mix_all(WList<Ws...>, vf::Rng& r) { (mix_wrapper<Ws>(r), ...); }
+
+static void part_optypes(vf::Rng& r) {
+  mix_all(W16{}, r);
+  mix_all(W32I{}, r);
+  mix_all(W32F{}, r);
+  mix_all(W64I{}, r);
+  mix_all(W64F{}, r);
+}
+
 static void part_chain(vf::Rng& r) {
   chain_all(W16{}, r);
   chain_all(W32I{}, r);
